@@ -230,8 +230,13 @@ class Engine:
         s._build_index()
 
     # ---- function index: resolve call-site text to a dump function
+    @staticmethod
+    def _targs(t):
+        m = re.search(r'<(.*)>', t, re.S)
+        if not m: return ()
+        return tuple(x.strip().split('::')[-1] for x in split_top(m.group(1)))
     def _build_index(s):
-        s.index = {}; s.closures = {}
+        s.index = {}; s.closures = {}; s.trait_of = {}
         for name, fn in s.fns.items():
             if '{closure#' in name or '{closure@' in name:
                 if fn.params:
@@ -251,6 +256,7 @@ class Engine:
                 e = s.decls.impls.get((m.group(1), int(m.group(2)), int(m.group(3)))) or s.decls.impls.get((m.group(1), int(m.group(2))))
                 if e: ty, tr = e
             if ty is None: return ('?', None, meth)
+            if tr: s.trait_of[name] = tr
             return (s._tyseg(ty), s._tyseg(tr) if tr else None, meth)
         segs = mir.strip_generics(name).split('::')
         return (None, None, meth) if len(segs) >= 1 else None
@@ -267,7 +273,12 @@ class Engine:
             ty = s._tyseg(m.group(1)); tr = s._tyseg(m.group(2)); meth = m.group(3)
             cands = s.index.get((ty, tr, meth), [])
             if len(cands) == 1: return cands[0]
-            if len(cands) > 1: raise EngineError(f'ambiguous call {callee}: {cands}')
+            if len(cands) > 1:
+                # several impls of one generic trait (e.g. Index<NodeId> / Index<PackageId>): compare the trait's type arguments
+                want = s._targs(m.group(2))
+                c2 = [n for n in cands if s._targs(s.trait_of.get(n, '')) == want]
+                if len(c2) == 1: return c2[0]
+                raise EngineError(f'ambiguous call {callee}: {cands}')
             return None
         c2 = mir.strip_generics(c)
         segs = c2.split('::')
@@ -277,6 +288,11 @@ class Engine:
             cands = s.index.get((ty, None, meth), [])
             if len(cands) == 1: return cands[0]
             if len(cands) > 1: raise EngineError(f'ambiguous call {callee}: {cands}')
+        if len(segs) >= 3:
+            # function nested in a method: Type::method::inner
+            tail = '::'.join(segs[-2:])
+            c3 = [n for n in s.fns if not s.fns[n].is_const and '{closure' not in n and mir.strip_generics(n).endswith('::' + tail)]
+            if len(c3) == 1: return c3[0]
         cands = [n for n in s.index.get((None, None, meth), []) if mir.strip_generics(n).split('::')[-1] == meth and
                  (len(segs) == 1 or mir.strip_generics(n).endswith(c2) or mir.strip_generics(n).split('::')[-len(segs):] == segs)]
         if len(cands) == 1: return cands[0]
@@ -522,6 +538,7 @@ class Engine:
             if not n2.endswith(idx): continue
             b2 = n2[:n2.rindex('::promoted[')]
             if b2.split('::')[-1] != meth: continue
+            if meth.startswith('{closure') and b2.split('::')[-2:] != base.split('::')[-2:]: continue
             hit.append(n)
         if len(hit) > 1:
             # disambiguate by resolving the owning function
